@@ -38,7 +38,7 @@ Definition canon_answer (a : list term) : list term :=
 Definition norm_ball (t : term) : term := fst (canon_t (strip_ctx t) []).
 
 (** what the harness observed *)
-Inductive oend := OEndNo | OEndMore | OEndErr (ball : term) | OEndGo (msg : string).
+Inductive oend := OEndNo | OEndMore | OEndErr (ball : term) | OEndGo (msg : string) | OEndCancel.
 
 Fixpoint list_eqb {A} (eqb : A -> A -> bool) (a b : list A) : bool :=
   match a, b with
@@ -53,6 +53,7 @@ Definition end_agree (m : ending) (o : oend) : bool :=
   | EndMore, OEndMore => true
   | EndErr (EBall b), OEndErr ob => term_eqb (norm_ball b) (norm_ball ob)
   | EndErr (EPanic _), OEndGo _ => true      (* both are panic residues; the wording is not compared *)
+  | EndErr ECancelled, OEndCancel => true
   | _, _ => false
   end.
 
@@ -117,4 +118,30 @@ Definition check_both (dynamic : bool) (cs : list pcase) : list (Z * Z * Z) :=
                                    end
                             | r => r
                             end)
+                   end) cs).
+
+(** ---- cancellation (C13): the context is found cancelled at the n-th poll ------------------ *)
+
+Definition ccase := (Z * list term * term * list Z * nat * nat * list (list term) * oend)%type.
+
+Definition run_polls (fuel : nat) (db : list proc) (q : term) (qvars : list Z) (limit : nat) (polls : nat) : list (list term) * ending :=
+  let '(r, st) := run_query fuel db QBASE q (map Var qvars) limit (Some polls) in
+  (rev (s_answers st),
+   match r with
+   | FTrue => EndMore | FFalse => EndNo | FError EFuel => EndFuel | FError e => EndErr e | FOutOfFuel => EndFuel
+   end).
+
+Definition check_cancel (cs : list ccase) : list (Z * Z * Z) :=
+  filter (fun r => negb (Z.eqb (snd (fst r)) 0))
+    (map (fun c => match c with
+                   | (id, prog, q, qvars, limit, polls, oans, oe) =>
+                       let '(ans, e) := run_polls MFUEL (program_db prog) q qvars limit polls in
+                       (id, match e with
+                            | EndFuel => 2
+                            | _ =>
+                                (* once the consumer has its last answer it closes the iteration and never looks at
+                                   the outcome of the poll that follows: both endings are the same observation *)
+                                let e_ok := end_agree e oe || match e, oe with EndErr ECancelled, OEndMore => true | _, _ => false end in
+                                if list_eqb (list_eqb term_eqb) (map canon_answer ans) (map canon_answer oans) && e_ok then 0 else 1
+                            end, 0)
                    end) cs).
